@@ -72,6 +72,7 @@ type mutant struct {
 	accept    []pair // acceptable identifications
 	anyTagFor []int  // reasons for which any of tags below is acceptable
 	tags      []int
+	with      []settings // settings this mutant is additionally judged under (besides the strict default and the seed-chosen ones)
 }
 
 func isFloatish(t string) bool {
@@ -219,7 +220,7 @@ func mutants(m *msggen.Message, r *rand.Rand, perKind int) []mutant {
 	// 4. bad format
 	c = nil
 	for _, p := range plain {
-		if len(p.node.M.Enums) == 0 && (isIntish(p.node.M.Type) || isFloatish(p.node.M.Type) || p.node.M.Type == "BOOLEAN" || p.node.M.Type == "UTCTIMESTAMP") {
+		if len(p.node.M.Enums) == 0 && (isIntish(p.node.M.Type) || isFloatish(p.node.M.Type) || p.node.M.Type == "BOOLEAN" || p.node.M.Type == "UTCTIMESTAMP" || p.node.M.Type == "TIME") { // TIME: the UTC timestamp type of the FIX 4.0/4.1 dictionaries
 			c = append(c, p)
 		}
 	}
@@ -376,6 +377,16 @@ func mutants(m *msggen.Message, r *rand.Rand, perKind int) []mutant {
 		t := foreign[r.Intn(len(foreign))]
 		f := insertAt(fs, endBody, fixwire.Field{Tag: t, Val: "x"})
 		out = append(out, mutant{kind: "field-of-another-message", fields: f, mustWhen: func(s settings) bool { return s.RejectInvalidMessage && !s.AllowUnknownMessageFields }, accept: []pair{{2, t}}})
+		// 13. the same, twice: where the settings let such a field through, the repetition is still a duplicate tag
+		f2 := insertAt(f, endBody, fixwire.Field{Tag: t, Val: "y"})
+		out = append(out, mutant{kind: "duplicate-of-tolerated-field", fields: f2, mustWhen: func(s settings) bool { return s.RejectInvalidMessage && s.AllowUnknownMessageFields },
+			accept: []pair{{13, t}, {2, t}}, with: []settings{{RejectInvalidMessage: true, AllowUnknownMessageFields: true, CheckUserDefinedFields: true, CheckFieldsHaveValues: true, CheckFieldsOutOfOrder: true}}})
+	}
+	// 14. a user-defined tag twice: with user-defined fields unchecked the repetition is still a duplicate tag
+	if u := 5000 + r.Intn(4000); appSpec.ByTag[u] == nil && trSpec.ByTag[u] == nil && !m.T.Admin {
+		f := insertAt(insertAt(fs, endBody, fixwire.Field{Tag: u, Val: "x"}), endBody, fixwire.Field{Tag: u, Val: "y"})
+		out = append(out, mutant{kind: "duplicate-of-tolerated-user-defined-field", fields: f, mustWhen: func(s settings) bool { return s.RejectInvalidMessage && !s.CheckUserDefinedFields },
+			accept: []pair{{13, u}, {0, u}}, with: []settings{{RejectInvalidMessage: true, CheckUserDefinedFields: false, CheckFieldsHaveValues: true, CheckFieldsOutOfOrder: true}}})
 	}
 	return out
 }
@@ -500,6 +511,7 @@ func runCase(c *core.Ctx, r *core.Result, t msggen.Target, i int, rng *rand.Rand
 		mraw := fixwire.Build(t.Cfg.Begin(), mu.fields)
 		// a few settings per mutant: the strict default, plus seed-chosen ones
 		ss := []settings{{CheckFieldsOutOfOrder: true, RejectInvalidMessage: true, CheckUserDefinedFields: true, CheckFieldsHaveValues: true}, all[rng.Intn(32)], all[rng.Intn(32)]}
+		ss = append(ss, mu.with...)
 		for _, s := range ss {
 			r.Eval(1)
 			v := validate(t, s, mraw)
